@@ -232,7 +232,30 @@ struct Query {
     form: &'static str,
     /// `Some(i)`: the fixed text `RAW[i]`, outside the Lean model (its predicate can raise):
     /// compared across configurations and processes only
-    raw: Option<usize>,
+    raw: Option<RawQ>,
+}
+
+/// a query outside the Lean model: compared across configurations and processes only
+#[derive(Clone, Debug)]
+enum RawQ {
+    /// `RAW[i]`
+    Fixed(usize),
+    /// generated text, its result columns, and a structural tag for signatures
+    Text(String, Vec<String>, String),
+}
+
+fn hex_of(s: &str) -> String {
+    s.bytes().map(|b| format!("{:02x}", b)).collect()
+}
+fn unhex_str(s: &str) -> Option<String> {
+    if s.len() % 2 != 0 {
+        return None;
+    }
+    let mut v = vec![];
+    for i in (0..s.len()).step_by(2) {
+        v.push(u8::from_str_radix(&s[i..i + 2], 16).ok()?);
+    }
+    String::from_utf8(v).ok()
 }
 
 /// queries whose predicate raises a type error on some rows
@@ -337,7 +360,11 @@ impl Case {
             self.cp_mid.map(|c| c.to_string()).unwrap_or("-".into()),
             if self.partial.is_empty() { "-".into() } else { self.partial.iter().map(|(l, k)| format!("{}.{}", l, k)).collect::<Vec<_>>().join(",") },
             if ops.is_empty() { "-".into() } else { ops.join(";") },
-            self.queries.iter().map(|q| match q.raw { Some(i) => format!("raw:{}", i), None => format!("{}~{}", q.model(), q.form) }).collect::<Vec<_>>().join(";")
+            self.queries.iter().map(|q| match &q.raw {
+                Some(RawQ::Fixed(i)) => format!("raw:{}", i),
+                Some(RawQ::Text(t, cols, kind)) => format!("rawq:{}:{}:{}", hex_of(t), cols.iter().map(|c| hex_of(c)).collect::<Vec<_>>().join(","), kind),
+                None => format!("{}~{}", q.model(), q.form),
+            }).collect::<Vec<_>>().join(";")
         )
     }
     fn parse(line: &str) -> Option<Case> {
@@ -388,7 +415,16 @@ impl Case {
                 if i >= RAW.len() {
                     return None;
                 }
-                queries.push(Query { label: 1, preds: vec![], ret: None, hop: None, form: "plain", raw: Some(i) });
+                queries.push(Query { label: 1, preds: vec![], ret: None, hop: None, form: "plain", raw: Some(RawQ::Fixed(i)) });
+                continue;
+            }
+            if let Some(r) = qs.strip_prefix("rawq:") {
+                let f: Vec<&str> = r.split(':').collect();
+                if f.len() != 3 {
+                    return None;
+                }
+                let cols = f[1].split(',').map(unhex_str).collect::<Option<Vec<_>>>()?;
+                queries.push(Query { label: 1, preds: vec![], ret: None, hop: None, form: "plain", raw: Some(RawQ::Text(unhex_str(f[0])?, cols, f[2].to_string())) });
                 continue;
             }
             let (m, form) = qs.split_once('~')?;
@@ -456,8 +492,10 @@ impl Query {
         format!("{}|{}|{}|{}", self.label, preds, ret, hop)
     }
     fn cypher(&self) -> String {
-        if let Some(i) = self.raw {
-            return RAW[i].0.to_string();
+        match &self.raw {
+            Some(RawQ::Fixed(i)) => return RAW[*i].0.to_string(),
+            Some(RawQ::Text(t, _, _)) => return t.clone(),
+            None => {}
         }
         let sym = |op: &str, flip: bool| -> &'static str {
             match (op, flip) {
@@ -521,8 +559,10 @@ impl Query {
         format!("MATCH {}{}{} RETURN {}", pattern, wh, with, ret)
     }
     fn columns(&self) -> Vec<String> {
-        if let Some(i) = self.raw {
-            return vec![RAW[i].1.to_string()];
+        match &self.raw {
+            Some(RawQ::Fixed(i)) => return vec![RAW[*i].1.to_string()],
+            Some(RawQ::Text(_, cols, _)) => return cols.clone(),
+            None => {}
         }
         match (self.hop, self.ret) {
             (Some(_), _) => vec!["n.h".into(), "m.h".into()],
@@ -532,8 +572,10 @@ impl Query {
     }
     /// structural class for signatures
     fn kind(&self) -> String {
-        if let Some(i) = self.raw {
-            return format!("raising-predicate-{}", i);
+        match &self.raw {
+            Some(RawQ::Fixed(i)) => return format!("raising-predicate-{}", i),
+            Some(RawQ::Text(_, _, kind)) => return kind.clone(),
+            None => {}
         }
         let p = match self.preds.first() {
             None => "nopred".to_string(),
@@ -745,6 +787,8 @@ fn plan_shape(e: &QueryEngine, s: &GraphStore, q: &Query) -> String {
 struct CaseResult {
     /// config name -> observation (bags of all queries joined by ';')
     obs: Vec<(String, String)>,
+    /// graph-native configurations: the unmasked observation (see `eval_case`)
+    native_obs: Vec<(String, String)>,
     /// per query: the plan shapes seen over the index placements and planners
     shapes: Vec<BTreeSet<String>>,
     write_errs: Vec<String>,
@@ -757,7 +801,7 @@ fn cfg_name(idx: &str, cp: &str, native: bool, par: bool) -> String {
 /// every configuration of one case.  Single-threaded: the planner and the parallel-filter
 /// switches are process environment variables, read by the engine at execution time.
 fn eval_case(case: &Case, with_shapes: bool) -> CaseResult {
-    let mut res = CaseResult { obs: vec![], shapes: vec![BTreeSet::new(); case.queries.len()], write_errs: vec![] };
+    let mut res = CaseResult { obs: vec![], native_obs: vec![], shapes: vec![BTreeSet::new(); case.queries.len()], write_errs: vec![] };
     for idx in IDX_MODES {
         for cp in CP_MODES {
             if cp == "mid" && case.cp_mid.is_none() {
@@ -767,6 +811,12 @@ fn eval_case(case: &Case, with_shapes: bool) -> CaseResult {
             for x in errs {
                 res.write_errs.push(format!("[{}.{}] {}", idx, cp, x));
             }
+            // The graph-native planner does not implement relationship isomorphism for
+            // multi-segment paths (known finding `planner:two-segment-path-native`): its rows
+            // for the generated two-segment queries are reported on a separate channel and
+            // replaced here by the legacy planner's rows of the same store, so that they do
+            // not hide index / tier / parallel-filter / process differences.
+            let mut legacy_bags: Vec<Vec<String>> = vec![vec![], vec![]];
             for native in [false, true] {
                 if native {
                     std::env::set_var("SAMYAMA_GRAPH_NATIVE", "true");
@@ -781,7 +831,20 @@ fn eval_case(case: &Case, with_shapes: bool) -> CaseResult {
                 for par in [false, true] {
                     std::env::set_var("SAMYAMA_FILTER_PARALLEL_COST", if par { "0" } else { "1000000" });
                     let bags: Vec<String> = case.queries.iter().map(|q| run_query(&e, &s, q)).collect();
-                    res.obs.push((cfg_name(idx, cp, native, par), bags.join(";")));
+                    if !native {
+                        legacy_bags[par as usize] = bags.clone();
+                        res.obs.push((cfg_name(idx, cp, native, par), bags.join(";")));
+                    } else {
+                        let masked: Vec<String> = bags
+                            .iter()
+                            .enumerate()
+                            .map(|(i, b)| if matches!(case.queries[i].raw, Some(RawQ::Text(..))) { legacy_bags[par as usize][i].clone() } else { b.clone() })
+                            .collect();
+                        if masked != bags {
+                            res.native_obs.push((cfg_name(idx, cp, native, par), bags.join(";")));
+                        }
+                        res.obs.push((cfg_name(idx, cp, native, par), masked.join(";")));
+                    }
                 }
             }
         }
@@ -986,6 +1049,111 @@ fn gen_zero_case(rng: &mut Rng) -> Case {
     Case { ix_mid: rng.usize(ops.len() + 1), cp_mid: Some(rng.usize(ops.len() + 1)), ops, queries, partial }
 }
 
+/// Two-segment path queries (outside the Lean model: the configurations must agree with each
+/// other): fan-in, fan-out, chains, undirected and untyped paths over stores with several
+/// nodes per label and parallel relationships, with an equality on an indexed key of the
+/// start, middle or end node, so that the existence of an index moves the anchor of the walk.
+/// Relationship isomorphism (a path uses a relationship once) must hold wherever the walk starts.
+fn gen_path_case(rng: &mut Rng) -> Case {
+    let mut ops: Vec<HOp> = vec![];
+    let mut live: BTreeMap<u64, Vec<u8>> = BTreeMap::new();
+    let mut edges: BTreeMap<u64, (u64, u64, usize)> = BTreeMap::new();
+    let mut next_h = 1u64;
+    let mut next_e = 1u64;
+    let codes = [Val::Int(7), Val::Int(7), Val::Int(1), Val::Int(2), Val::Flt(14)];
+    let (na, nb) = (3 + rng.usize(3), 1 + rng.usize(3));
+    for k in 0..(na + nb + rng.usize(2)) {
+        let l = if k < na { 1u8 } else if k < na + nb { 2u8 } else { 3u8 };
+        ops.push(HOp::Create { h: next_h, labels: vec![l], props: vec![(1, codes[rng.usize(codes.len())].clone())] });
+        live.insert(next_h, vec![l]);
+        next_h += 1;
+    }
+    let of_label = |live: &BTreeMap<u64, Vec<u8>>, l: u8| -> Vec<u64> { live.iter().filter(|(_, ls)| ls.contains(&l)).map(|(h, _)| *h).collect() };
+    let n_edges = 6 + rng.usize(8);
+    for _ in 0..n_edges {
+        let (asrc, bs) = (of_label(&live, 1), of_label(&live, 2));
+        let r = rng.usize(10);
+        let (src, dst) = if r < 2 && !edges.is_empty() {
+            let (a, b, _) = *edges.values().nth(rng.usize(edges.len())).unwrap();
+            (a, b) // parallel
+        } else if r < 7 {
+            (asrc[rng.usize(asrc.len())], bs[rng.usize(bs.len())]) // A -> B
+        } else if r < 9 {
+            (bs[rng.usize(bs.len())], asrc[rng.usize(asrc.len())]) // B -> A
+        } else {
+            let all: Vec<u64> = live.keys().copied().collect();
+            (all[rng.usize(all.len())], all[rng.usize(all.len())])
+        };
+        let ty = if rng.chance(3, 4) { 1 } else { 2 };
+        ops.push(HOp::CreateEdge { e: next_e, src, dst, ty });
+        edges.insert(next_e, (src, dst, ops.len()));
+        next_e += 1;
+    }
+    // a little history after the build
+    for _ in 0..rng.usize(4) {
+        match rng.usize(3) {
+            0 if !edges.is_empty() => {
+                let e = *edges.keys().nth(rng.usize(edges.len())).unwrap();
+                edges.remove(&e);
+                ops.push(HOp::DeleteEdge { e });
+            }
+            1 => {
+                let h = *live.keys().nth(rng.usize(live.len())).unwrap();
+                ops.push(HOp::Set { h, key: 1, v: codes[rng.usize(codes.len())].clone(), merge_form: false });
+            }
+            _ => {
+                let (asrc, bs) = (of_label(&live, 1), of_label(&live, 2));
+                ops.push(HOp::CreateEdge { e: next_e, src: asrc[rng.usize(asrc.len())], dst: bs[rng.usize(bs.len())], ty: 1 });
+                edges.insert(next_e, (0, 0, 0));
+                next_e += 1;
+            }
+        }
+    }
+    let mut queries = vec![];
+    let lab = |l: u8| LABELS[l as usize];
+    for _ in 0..6 {
+        let shape = rng.usize(7);
+        let t1 = if rng.chance(3, 4) { "R" } else { "S" };
+        let t2 = if rng.chance(2, 3) { t1 } else if t1 == "R" { "S" } else { "R" };
+        // (label a, label m, label c, pattern with {A} {M} {C} placeholders, tag)
+        let (la, lm, lc, pat, tag): (u8, u8, u8, String, &str) = match shape {
+            0 | 1 => (1, 2, 1, format!("{{A}}-[:{}]->{{M}}<-[:{}]-{{C}}", t1, t2), "fan-in"),
+            2 => (2, 1, 2, format!("{{A}}<-[:{}]-{{M}}-[:{}]->{{C}}", t1, t2), "fan-out"),
+            3 => (1, 2, 1, format!("{{A}}-[:{}]->{{M}}-[:{}]->{{C}}", t1, t2), "chain"),
+            4 => (1, 2, 1, format!("{{A}}-[:{}]-{{M}}-[:{}]-{{C}}", t1, t2), "undirected"),
+            5 => (1, 2, 1, "{A}-->{M}<--{C}".to_string(), "fan-in-untyped"),
+            _ => (1, 1, 1, format!("{{A}}-[:{}]->{{M}}-[:{}]->{{C}}", t1, t2), "chain-one-label"),
+        };
+        let probe = [Val::Int(7), Val::Int(7), Val::Int(1), Val::Flt(14)][rng.usize(4)].clone();
+        let pos = rng.usize(4); // 0 start, 1 middle, 2 end, 3 none
+        let inline = pos < 3 && rng.chance(1, 4);
+        let node = |var: &str, l: u8, here: bool| -> String {
+            if here && inline {
+                format!("({}:{} {{x: {}}})", var, lab(l), probe.cypher())
+            } else {
+                format!("({}:{})", var, lab(l))
+            }
+        };
+        let pattern = pat
+            .replace("{A}", &node("a", la, pos == 0))
+            .replace("{M}", &node("m", lm, pos == 1))
+            .replace("{C}", &node("c", lc, pos == 2));
+        let wh = if pos < 3 && !inline { format!(" WHERE {}.x = {}", ["a", "m", "c"][pos], probe.cypher()) } else { String::new() };
+        let (ret, cols): (&str, Vec<String>) = match rng.usize(4) {
+            0 => ("count(*)", vec!["count(*)".into()]),
+            1 => ("a.h, m.h, c.h", vec!["a.h".into(), "m.h".into(), "c.h".into()]),
+            _ => ("a.h, c.h", vec!["a.h".into(), "c.h".into()]),
+        };
+        let text = format!("MATCH {}{} RETURN {}", pattern, wh, ret);
+        let kind = format!("path2-{}-{}{}", tag, ["start", "middle", "end", "nopred"][pos], if ret == "count(*)" { "-count" } else { "" });
+        queries.push(Query { label: 1, preds: vec![], ret: None, hop: None, form: "plain", raw: Some(RawQ::Text(text, cols, kind)) });
+    }
+    // one modelled query keeps the case tied to the model as well
+    queries.push(Query { label: 2, preds: vec![Pred::Cmp { key: 1, op: "eq", v: Val::Int(7) }], ret: Some(0), hop: Some((1, false, 1)), form: "plain", raw: None });
+    let partial: Vec<(u8, u8)> = [(1u8, 1u8), (2, 1), (3, 1)].iter().filter(|_| rng.chance(1, 2)).copied().collect();
+    Case { ix_mid: rng.usize(ops.len() + 1), cp_mid: Some(rng.usize(ops.len() + 1)), ops, queries, partial }
+}
+
 fn gen_case(rng: &mut Rng, big: bool) -> Case {
     let pool = value_pool();
     let n_ops = if big { 0 } else { 4 + rng.usize(14) };
@@ -1144,7 +1312,7 @@ fn gen_case(rng: &mut Rng, big: bool) -> Case {
     }
     if big || rng.chance(1, 10) {
         for i in 0..RAW.len() {
-            queries.push(Query { label: 1, preds: vec![], ret: None, hop: None, form: "plain", raw: Some(i) });
+            queries.push(Query { label: 1, preds: vec![], ret: None, hop: None, form: "plain", raw: Some(RawQ::Fixed(i)) });
         }
     }
     let partial: Vec<(u8, u8)> = ALL_PAIRS.iter().filter(|_| rng.chance(1, 2)).copied().collect();
@@ -1207,6 +1375,9 @@ fn child_main(file: &str) {
         for (c, o) in &r.obs {
             writeln!(out, "cfg {} {}", c, o).unwrap();
         }
+        for (c, o) in &r.native_obs {
+            writeln!(out, "ncfg {} {}", c, o).unwrap();
+        }
         writeln!(out, "shapes {}", r.shapes.iter().map(|q| q.iter().cloned().collect::<Vec<_>>().join(",")).collect::<Vec<_>>().join("|")).unwrap();
         for e in r.write_errs.iter().take(3) {
             writeln!(out, "werr {}", e.replace('\n', " ")).unwrap();
@@ -1217,6 +1388,7 @@ fn child_main(file: &str) {
 
 struct Parsed {
     obs: Vec<(String, String)>,
+    native_obs: Vec<(String, String)>,
     shapes: Vec<BTreeSet<String>>,
     werrs: Vec<String>,
     raw: String,
@@ -1227,11 +1399,21 @@ fn parse_child(out: &str, n: usize) -> Vec<Parsed> {
     let mut cur: Option<Parsed> = None;
     for line in out.lines() {
         if line.starts_with("case ") {
-            cur = Some(Parsed { obs: vec![], shapes: vec![], werrs: vec![], raw: String::new() });
+            cur = Some(Parsed { obs: vec![], native_obs: vec![], shapes: vec![], werrs: vec![], raw: String::new() });
         }
         if let Some(c) = cur.as_mut() {
-            c.raw.push_str(line);
-            c.raw.push('\n');
+            if let Some(r) = line.strip_prefix("ncfg ") {
+                if let Some((a, b)) = r.split_once(' ') {
+                    c.native_obs.push((a.to_string(), b.to_string()));
+                }
+                continue;
+            }
+            // plan shapes are coverage evidence, never a verdict input (the graph-native
+            // enumerator's choice among equal-cost plans follows HashMap order)
+            if !line.starts_with("shapes ") {
+                c.raw.push_str(line);
+                c.raw.push('\n');
+            }
             if let Some(r) = line.strip_prefix("cfg ") {
                 if let Some((a, b)) = r.split_once(' ') {
                     c.obs.push((a.to_string(), b.to_string()));
@@ -1278,7 +1460,7 @@ fn main() {
         "C02",
         "random write histories (create/set incl. type changes/remove/delete with id reuse/label add+remove/relationships) x read queries \
          (single-label MATCH, 0-2 comparison or IN predicates, optional one-hop in either direction, typed or untyped, to a labelled or unlabelled node, RETURN n.k | count | n.h,m.h; plain/flipped/reversed/inline/WITH forms); \
-         a fifth of the cases rewrite an indexed key with ==-equal values of a different index key (0.0, -0.0, 0) or NaN and then SET/REMOVE/unlabel/DELETE+reuse; a quarter of the cases are relationship-heavy (parallel and multi-type relationships between one pair, self-loops, compaction, then deletes of frozen relationships and DETACH DELETEs interleaved with creates that reuse the freed ids), \
+         a third of the cases ask two-segment path queries (fan-in, fan-out, chain, undirected, untyped; equality on an indexed key of the start, middle or end node; RETURN handles or count(*)) that are outside the Lean model and only have to agree across all configurations and processes; a sixth of the cases rewrite an indexed key with ==-equal values of a different index key (0.0, -0.0, 0) or NaN and then SET/REMOVE/unlabel/DELETE+reuse; a quarter of the cases are relationship-heavy (parallel and multi-type relationships between one pair, self-loops, compaction, then deletes of frozen relationships and DETACH DELETEs interleaved with creates that reuse the freed ids), \
          each replayed into 5 index placements x up to 3 compaction placements and run under 2 planners x 2 parallel-filter settings, in two processes; \
          non-trivial = a live node carries a queried label, some plan has an operator beyond scan/project, and the configurations produced >= 2 plan shapes; \
          distinct = distinct rendered case",
@@ -1312,7 +1494,7 @@ fn main() {
     if args.replay.is_none() {
         // `Rng::new(s)` and `Rng::new(s + 1)` are the same stream one step apart; spread the seeds
         let mut rng = Rng::new(args.seed.wrapping_mul(0xD6E8_FEB8_6659_FD93).rotate_left(23) ^ 0xC02);
-        let (n_rand, n_edge, n_zero, n_big) = if args.thorough() { (3800, 1300, 1000, 24) } else { (330, 130, 110, 4) };
+        let (n_rand, n_edge, n_zero, n_path, n_big) = if args.thorough() { (3200, 1100, 900, 1800, 24) } else { (240, 90, 80, 130, 4) };
         for _ in 0..n_rand {
             let mut r = rng.fork();
             cases.push(gen_case(&mut r, false));
@@ -1327,6 +1509,11 @@ fn main() {
             cases.push(gen_zero_case(&mut r));
         }
         rep.count_n("equal_value_rewrite_cases", n_zero as u64);
+        for _ in 0..n_path {
+            let mut r = rng.fork();
+            cases.push(gen_path_case(&mut r));
+        }
+        rep.count_n("two_segment_path_cases", n_path as u64);
         for _ in 0..n_big {
             let mut r = rng.fork();
             cases.push(gen_case(&mut r, true));
@@ -1378,6 +1565,27 @@ fn main() {
                 rep.count("process_diff");
                 let body = format!("{}\n# process 1\n{}# process 2\n{}", cases[k].render(), pa.raw, pb.raw);
                 rep.spec_violation(&known, "process:results-differ", &format!("two processes returned different canonical results for `{}`", cases[k].render()), &body);
+            }
+            if pa.native_obs != pb.native_obs {
+                rep.count("process_diff_native_two_segment");
+                rep.spec_violation(&known, "process:two-segment-path-native", &format!("graph-native planner: two processes returned different rows for a two-segment path query of `{}`", cases[k].render()), &cases[k].render());
+            }
+            if let Some((cfg, o)) = pa.native_obs.first() {
+                rep.count("native_two_segment_deviation");
+                let masked = pa.obs.iter().find(|(c2, _)| c2 == cfg).map(|(_, m)| m.clone()).unwrap_or_default();
+                let qi = o.split(';').zip(masked.split(';')).position(|(a, b)| a != b).unwrap_or(0);
+                rep.spec_violation(
+                    &known,
+                    "planner:two-segment-path-native",
+                    &format!(
+                        "`{}` under {} returns {} ; the legacy planner on the same store returns {}",
+                        cases[k].queries.get(qi).map(|q| q.cypher()).unwrap_or_default(),
+                        cfg,
+                        o.split(';').nth(qi).unwrap_or("?"),
+                        masked.split(';').nth(qi).unwrap_or("?")
+                    ),
+                    &format!("{}\n# {} {}\n# legacy rows of the same store: {}", cases[k].render(), cfg, o, masked),
+                );
             }
             results[k] = Some(pa);
         }
